@@ -382,6 +382,20 @@ def _check_index_spaces(prog, ctx):
     n = 0
     for ci in prog.all_subclasses(g1):
         for fi in ci.methods.values():
+            # single-definition locals are looked through (`global_index = index + self.lowerBorder`)
+            defs = {}
+            for st in walk_local(fi.node):
+                if isinstance(st, ast.Assign) and len(st.targets) == 1 and isinstance(st.targets[0], ast.Name):
+                    defs.setdefault(st.targets[0].id, []).append(st.value)
+            single = {k: v[0] for k, v in defs.items() if len(v) == 1}
+
+            def expand(e, depth=0):
+                out = [e]
+                if depth < 3:
+                    for x in ast.walk(e):
+                        if isinstance(x, ast.Name) and x.id in single:
+                            out += expand(single[x.id], depth + 1)
+                return out
             for node in ast.walk(fi.node):
                 parts = []
                 if isinstance(node, ast.Compare) and len(node.ops) == 1:
@@ -392,9 +406,9 @@ def _check_index_spaces(prog, ctx):
                     continue
                 def has_wb_pos(e):
                     return any(isinstance(b, ast.BinOp) and isinstance(b.op, ast.Add) and
-                               any(R.self_attr(o, fi.self_name) == "lowerBorder" for o in (b.left, b.right)) for b in ast.walk(e))
+                               any(R.self_attr(o, fi.self_name) == "lowerBorder" for o in (b.left, b.right)) for e2 in expand(e) for b in ast.walk(e2))
                 def counts(e):
-                    return {R.self_attr(a, fi.self_name) for a in ast.walk(e) if isinstance(a, ast.Attribute)} & {"num_points", "num_points_with_boundary"}
+                    return {R.self_attr(a, fi.self_name) for e2 in expand(e) for a in ast.walk(e2) if isinstance(a, ast.Attribute)} & {"num_points", "num_points_with_boundary"}
                 for a, b in ((parts[0], parts[1]), (parts[1], parts[0])):
                     if has_wb_pos(a) and counts(b):
                         n += 1
